@@ -36,6 +36,9 @@ theorem ts_extract_time_range (ts : Int) : 0 ≤ (Timestamp.extract ts).2 ∧ (T
 theorem ts_extract_date_valid (ts : Int) (hts : isValidTimestamp ts) : isValidDate (Timestamp.extract ts).1 := by
   rw [SqlDt.Timestamp.extract_eq, isValidDate_iff]; rw [isValidTimestamp_iff] at hts; dsimp only; omega
 
+theorem ts_div_date_valid (ts : Int) (hts : isValidTimestamp ts) : isValidDate (ts / 86400000000) := by
+  rw [isValidDate_iff]; rw [isValidTimestamp_iff] at hts; omega
+
 /-- `time.hour().unwrap()` of a time of day: the cast `as i32` is exact -/
 theorem hour_cast (t : Int) (h0 : 0 ≤ t) (h1 : t < 86400000000) :
     asI32 (rdiv t USECONDS_PER_HOUR) = rdiv t USECONDS_PER_HOUR := by
@@ -134,6 +137,43 @@ macro "tr_ts_unit" : tactic => `(tactic| (
   | (have hd := ts_date_range ts h0 h1
      tr_ts_unit)
 
+/-! ### the half-day shift of `round_day` and of the four week roundings (`Timestamp.shiftHalfDay` in the model) -/
+
+set_option hygiene false in
+/-- Independent of how the source spells the shift (inline `if … { date = date.add_days(1)? }`, or a helper returning
+    `Result<Date>` whose result is matched): both sides are brought to the closed forms `ts / 86400000000` (date) and
+    `ts % 86400000000` (time of day); then the case analysis is done on the MODEL's terms – the half-day test, then the
+    result of `Date.addDays (ts / 86400000000) 1` – and each case is closed by rewriting: the shifted date `r1` is valid,
+    which gives the side conditions of the callees that are applied to it. -/
+macro "tr_ts_shift" ts:ident : tactic => `(tactic| (
+  try dsimp only
+  try simp (disch := omega) only [tr_eq]
+  simp only [Timestamp.round, Timestamp.shiftHalfDay, Timestamp.hour, Time.hour, Date.round, bind, Except.bind, pure,
+    Except.pure]
+  try simp (disch := omega) only [SqlDt.Timestamp.extract_eq, SqlDt.Timestamp.date_eq, SqlDt.Timestamp.time_eq, hour_cast,
+    tr_eq, asI32_eq]
+  first
+  | done
+  | (by_cases hc : rdiv ($ts % 86400000000) USECONDS_PER_HOUR ≥ 12
+     · simp only [hc, ↓reduceIte]
+       first
+       | done
+       | (cases hadd : Date.addDays ($ts / 86400000000) 1 with
+          | error e => first | done | rfl | (simp only [hadd]; done) | (dsimp only; done)
+          | ok r1 =>
+            try simp only [hadd]
+            first
+            | done
+            | (try dsimp only
+               have hv1 := addDays_ok_valid _ _ _ hadd
+               have hr1 := valid_date_range' _ hv1
+               have hf1 := first_of_year_le _ hv1
+               have hdd1 := extract_day_range _ hr1.1
+               try simp (disch := omega) only [tr_eq, asI32_eq]
+               first | done | rfl | (tr_ts_both; done) | tr_auto))
+     · simp only [hc, ↓reduceIte]
+       first | done | rfl | (tr_ts_both; done) | tr_auto)))
+
 /-! ## `Round for Timestamp`: day, hour, minute -/
 
 @[tr_eq] theorem Timestamp.round_day_eq (ts : Int) (h0 : -9223372036854775808 ≤ ts) (h1 : ts ≤ 9223372036854775807) :
@@ -141,8 +181,7 @@ macro "tr_ts_unit" : tactic => `(tactic| (
   unfold Tr.Timestamp.round_day
   first
   | (with_reducible_and_instances rfl)
-  | (have ht := ts_time_range ts
-     tr_ts_unit)
+  | (tr_ts_shift ts)
 
 @[tr_eq] theorem Timestamp.round_hour_eq (ts : Int) (h0 : -9223372036854775808 ≤ ts) (h1 : ts ≤ 9223372036854775807) :
     Tr.Timestamp.round_hour ts = Timestamp.round .hour ts := by
@@ -196,63 +235,37 @@ macro "tr_ts_unit" : tactic => `(tactic| (
 
 /-! ## `Round for Timestamp`: the four week roundings (half-day shift first: `Timestamp.shiftHalfDay`) -/
 
-set_option hygiene false in
-/-- decide the half-day test (it occurs on both sides), then go through `add_days(1)?`; the shifted date `r1` is valid,
-    which gives the side conditions of the callees that are applied to it -/
-macro "tr_ts_shift" : tactic => `(tactic| (
-  try simp (disch := omega) only [tr_eq, hour_cast, asI32_eq]
-  simp only [Timestamp.round, Timestamp.shiftHalfDay, Date.round, Time.hour, bind, Except.bind, pure, Except.pure]
-  first
-  | done
-  | (tr_ts_both
-     all_goals first
-       | done
-       | (tr_ts_both <;> first
-           | done
-           | (try (have hv1 := addDays_ok_valid _ _ _ hcase
-                   have hr1 := valid_date_range' _ hv1
-                   have hf1 := first_of_year_le _ hv1
-                   have hdd1 := extract_day_range _ hr1.1)
-              try simp (disch := omega) only [tr_eq, asI32_eq]
-              first | done | (tr_ts_both; done) | tr_auto)))))
-
 @[tr_eq] theorem Timestamp.round_week_eq (ts : Int) (hts : isValidTimestamp ts) :
     Tr.Timestamp.round_week ts = Timestamp.round .week ts := by
   unfold Tr.Timestamp.round_week
   first
   | (with_reducible_and_instances rfl)
   | (have hb := (isValidTimestamp_iff ts).1 hts
-     have hx := ts_extract_time_range ts
-     have hv := ts_extract_date_valid ts hts
-     have hr := valid_date_range' _ hv
+     have hv := ts_div_date_valid ts hts
      have hf := first_of_year_le _ hv
-     tr_ts_shift)
+     tr_ts_shift ts)
 
 @[tr_eq] theorem Timestamp.round_iso_week_eq (ts : Int) (h0 : -9223372036854775808 ≤ ts) (h1 : ts ≤ 9223372036854775807) :
     Tr.Timestamp.round_iso_week ts = Timestamp.round .isoWeek ts := by
   unfold Tr.Timestamp.round_iso_week
   first
   | (with_reducible_and_instances rfl)
-  | (have hx := ts_extract_time_range ts
-     tr_ts_shift)
+  | (tr_ts_shift ts)
 
 @[tr_eq] theorem Timestamp.round_month_start_week_eq (ts : Int) (h0 : -210866803200000000 ≤ ts) (h1 : ts ≤ 9223372036854775807) :
     Tr.Timestamp.round_month_start_week ts = Timestamp.round .monthStartWeek ts := by
   unfold Tr.Timestamp.round_month_start_week
   first
   | (with_reducible_and_instances rfl)
-  | (have hx := ts_extract_time_range ts
-     have hr := ts_extract_date_range ts h0 h1
-     have hdd := extract_day_range _ hr.1
-     tr_ts_shift)
+  | (have hdd := extract_day_range (ts / 86400000000) (by omega)
+     tr_ts_shift ts)
 
 @[tr_eq] theorem Timestamp.round_sunday_start_week_eq (ts : Int) (h0 : -9223372036854775808 ≤ ts) (h1 : ts ≤ 9223372036854775807) :
     Tr.Timestamp.round_sunday_start_week ts = Timestamp.round .sundayStartWeek ts := by
   unfold Tr.Timestamp.round_sunday_start_week
   first
   | (with_reducible_and_instances rfl)
-  | (have hx := ts_extract_time_range ts
-     tr_ts_shift)
+  | (tr_ts_shift ts)
 
 /-! ## `Trunc / Round for oracle::Date`: the `Timestamp` unit followed by `.into()` (flooring to the second) -/
 
